@@ -31,6 +31,19 @@ def main():
     import genlib
     os.chdir(cfg["cwd"])
     runner = genlib.Runner()
+    if cfg.get("warmup"):
+        # the process has a history: the same generation already ran here once (the tree was then put back as it was).
+        # What a generation does must not depend on what the interpreter did before.
+        import shutil
+        real = os.path.abspath(cfg["outdir"])
+        keep = real + ".kept"
+        if os.path.isdir(real):
+            shutil.copytree(real, keep, copy_function=shutil.copy2)
+        runner.generate(cfg["model"], cfg["outdir"])
+        shutil.rmtree(real, ignore_errors=True)
+        if os.path.isdir(keep):
+            shutil.copytree(keep, real, copy_function=shutil.copy2)
+            shutil.rmtree(keep)
     ret = runner.generate(cfg["model"], cfg["outdir"])[0]
     print("RET " + json.dumps(ret))
 
